@@ -856,6 +856,91 @@ Proof.
   - destruct (no_flush_law p _ _ Hr Hff) as (Hlat & _). cbv zeta in Hlat. rewrite Hlat, Hl. reflexivity.
 Qed.
 
+(** * The layer-0 laws with their side conditions discharged by [Shape] *)
+
+Lemma shape_mode_cases p : Shape p ->
+  stalled p = None \/ exists k d, stalled p = Some (k, d) /\ (k = 1 \/ k = 2).
+Proof.
+  intros Sh. destruct (shape_stalled p Sh) as [[E _]|(k & d & sv & E & _ & Hk & _)]; [left; exact E|].
+  right. exists k, d. split; assumption.
+Qed.
+
+(* C08: hazard detection off => ID never raises a stall; only an ecall drain can start *)
+Theorem nohaz_no_id_stall_reach p next s f : Shape p -> hazards p = false ->
+  run_stages (bump p) = (next, s, f) ->
+  has_stall (lat_at next 1) = false /\
+  (new_stall next (stalled p) = None \/ new_stall next (stalled p) = Some 2).
+Proof.
+  intros Sh Hz Hr. destruct (shape_flags p Sh) as (_ & Hs0 & _).
+  exact (nohaz_new_stall p next s f Hz Hs0 Hr).
+Qed.
+
+Theorem nohaz_stalls_only_ecall_reach p : Shape p -> hazards p = false ->
+  stalls (pst (fst (pipe_step p))) <> stalls (pst p) ->
+  stalled p = None /\
+  exists y, lat_at (lat p) 1 = Some y /\ sl_instr y = IEcall /\
+            ex_busy y (lat_at (lat p) 2) (lat_at (lat p) 3) = true.
+Proof.
+  intros Sh Hz Hne. destruct (shape_elim _ Sh) as (l0 & l1 & l2 & l3 & l4 & Hl & _ & H0 & _).
+  pose proof (L0ok_flags _ _ H0) as [Hs0 _]. rewrite Hl. lat5.
+  exact (nohaz_stalls_only_ecall p l0 l1 l2 l3 l4 Hl Hz Hs0 (shape_mode_cases p Sh) Hne).
+Qed.
+
+(* C08 / L0.5: the operands latched by ID in a cycle are read from the register file as it is
+   after the WB stage of the same cycle: exactly the writes of the instructions that have
+   completed write-back by that cycle (re-decodes during a stall included) *)
+Theorem reads_completed_writes p next s y : Shape p ->
+  run_stages (bump p) = (next, s, None) -> id_input p = Some y ->
+  exists z, lat_at next 1 = Some z /\ sl_instr z = sl_instr y /\ sl_addr z = sl_addr y /\
+    (sl_ra1 z, sl_ra2 z, sl_rd1 z, sl_rd2 z, sl_imm z) =
+      access_rf (sl_instr y) (with_regs (pst p) (wb_regs (lat_at (lat p) 3) (pst p))) /\
+    (hazards p = false -> sl_stall z = false).
+Proof.
+  intros Sh Hr Hy. destruct (shape_elim _ Sh) as (l0 & l1 & l2 & l3 & l4 & Hl & _).
+  pose proof (wb_before_id (bump p) l0 l1 l2 l3 l4 next s Hl (shape_mode_cases p Sh) Hr) as Hid.
+  change (id_input (bump p)) with (id_input p) in Hid. change (hazards (bump p)) with (hazards p) in Hid.
+  rewrite Hy, id_on_some in Hid. rewrite Hl. lat5.
+  eexists; split; [exact Hid|]. cbn [id_slot sl_instr sl_addr sl_ra1 sl_ra2 sl_rd1 sl_rd2 sl_imm sl_stall].
+  split; [reflexivity|]. split; [reflexivity|]. split.
+  - unfold rf_ra1, rf_ra2, rf_rd1, rf_rd2, rf_imm.
+    rewrite (access_rf_ext (sl_instr y) (with_regs (pst (bump p)) (wb_regs l3 (pst (bump p))))
+               (with_regs (pst p) (wb_regs l3 (pst p)))) by (stf; apply wb_regs_ext; reflexivity).
+    destruct (access_rf _ _) as [[[[a b] c] d] e]. reflexivity.
+  - intros ->. reflexivity.
+Qed.
+
+Theorem hazards_constant_iter n : forall p, hazards (pipe_iter n p) = hazards p.
+Proof.
+  induction n as [|n IH]; intros p; cbn [pipe_iter]; [reflexivity|].
+  rewrite IH. apply hazards_flag_constant.
+Qed.
+
+(* the form the proof of "an ecall fires once" needs: when a not-yet-stalled ecall in latch ID
+   finds an older instruction in flight, the MEM input is occupied (never: bubble in the MEM
+   input, instruction in the WB input) — so the drain takes the full two cycles *)
+Theorem ecall_busy_mem_occupied p y : Shape p -> stalled p = None ->
+  lat_at (lat p) 1 = Some y -> ex_busy y (lat_at (lat p) 2) (lat_at (lat p) 3) = true ->
+  lat_at (lat p) 2 <> None.
+Proof.
+  intros Sh Hs Hy Hb. pose proof (sh_l1 _ Sh) as H1. rewrite Hy in H1. destruct H1 as (_ & _ & Hsv & _).
+  destruct (bubbles_come_in_pairs p Sh Hs) as (_ & _ & N3). cbv zeta in N3.
+  unfold ex_busy in Hb. rewrite Hsv in Hb. intros E. rewrite E in *. cbn [nonempty orb] in Hb.
+  apply N3. rewrite Hy. repeat split. exact Hb.
+Qed.
+
+Theorem icount_step_reach p : Shape p ->
+  icount (pst (fst (pipe_step p))) = icount (pst p) + (if nonempty (lat_at (lat p) 3) then 1 else 0).
+Proof. intros Sh. apply icount_step. exact (shape_mode_cases p Sh). Qed.
+
+Theorem ecall_waits_for_drain_lem p : Shape p ->
+  (stalled p = Some (2, 2) ->
+     exists y1, sv_at p 1 = Some y1 /\ sl_instr y1 = IEcall /\
+                ex_busy y1 (lat_at (lat p) 2) (lat_at (lat p) 3) = true) /\
+  (stalled p = Some (2, 1) ->
+     exists y1, sv_at p 1 = Some y1 /\ sl_instr y1 = IEcall /\
+                ex_busy y1 (lat_at (lat p) 2) (lat_at (lat p) 3) = false).
+Proof. intros Sh. split; [exact (ecall_drain_guard p Sh)|exact (ecall_drain_fires p Sh)]. Qed.
+
 End WithIM.
 
 (** * The instance without instruction cache *)
